@@ -240,6 +240,9 @@ func lower(b []byte) []byte {
 //
 // "We have to" includes the '&' byte, since that introduces other escapes.
 //
+// It includes the '\r' byte, as func escape does: the tokenizer's newline
+// normalization would otherwise turn a literal "\r" (or "\r\n") into "\n".
+//
 // It also includes those bytes (not including EOF) that would otherwise end
 // the comment. Per the summary table at the bottom of comment_test.go, this is
 // the '>' byte that, per above, we'd like to avoid escaping unless we have to.
@@ -249,7 +252,8 @@ func lower(b []byte) []byte {
 // start of the comment data. State 52 is after a '!'. The other three states
 // are after a '-'.
 //
-// Our algorithm is thus to escape every '&' and to escape '>' if and only if:
+// Our algorithm is thus to escape every '&' and '\r' and to escape '>' if and
+// only if:
 //   - The '>' is after a '!' or '-' (in the unescaped data) or
 //   - The '>' is at the start of the comment data (after the opening "<!--").
 func escapeComment(w writer, s string) error {
@@ -272,6 +276,9 @@ func escapeComment(w writer, s string) error {
 		switch s[j] {
 		case '&':
 			escaped = "&amp;"
+
+		case '\r':
+			escaped = "&#13;"
 
 		case '>':
 			if j > 0 {
@@ -306,7 +313,7 @@ func escapeComment(w writer, s string) error {
 
 // escapeCommentString is to EscapeString as escapeComment is to escape.
 func escapeCommentString(s string) string {
-	if strings.IndexAny(s, "&>") == -1 {
+	if strings.IndexAny(s, "&>\r") == -1 {
 		return s
 	}
 	var buf bytes.Buffer
